@@ -314,7 +314,17 @@ PROPS["C07"] = dict(
 
 PROPS["C10"] = dict(
     level="model_checking",
-    rule="concurrent half (c10_morphgraph): 3 for_each iterations, each a "
+    rule="sequential half (c10_morph_seq, seqx history BFS, 30 cases): 15 "
+         "flavours of MorphGraph / Morph_SepInOut_Graph / MorphHyperGraph "
+         "(directed, in/out, undirected, sorted, no-lockable, void edge data) "
+         "x two start states, alphabet of 42-51 operations over all 9 ordered "
+         "node pairs (addNode, addEdge, addMultiEdge, data update, "
+         "removeNode, removeEdge, removeInEdge), depth 4 (quick) / 5-7 "
+         "(thorough), against a plain adjacency model; after every step: live "
+         "node set, per-node (dst,data) multisets of out- and in-edges, no "
+         "edge to a removed node, reverse entries share the data cell, sorted "
+         "flavours sorted, each live node/edge yielded once, findEdge "
+         "membership for every pair. concurrent half (c10_morphgraph): 3 for_each iterations, each a "
          "cautious mutation program of <= 2 operations (addEdge with "
          "duplicate check, addMultiEdge, removeEdge via findEdge, removeNode, "
          "addNode, edge-data update) over overlapping endpoints of a 3-4 "
@@ -342,7 +352,8 @@ PROPS["C10"] = dict(
                "nodes; no-lockable flavour is sequential-only (no conflict "
                "detection to test)",
     design_ref="DESIGN.md 2, 7/C10",
-    parts=[dict(engine="e1", harness="c10_morphgraph")],
+    parts=[dict(engine="e2", harness="c10_morph_seq", weight=2),
+           dict(engine="e1", harness="c10_morphgraph", weight=2)],
 )
 
 PROPS["C15"] = dict(
